@@ -1258,3 +1258,18 @@ package larking
 //@   assert atcall `append(rules, r.rules...)` [exact-selectors-apply-only-to-their-own-name C19] len(name) == 0
 //@   assert atcall `append(rules, r.wild...)` [wildcards-cover-only-deeper-names C19] len(name) > 0
 //@   witness verifWitnessSelectorLeak
+// setRules files a selector under the node its dotted name leads to: a trailing
+// "*" component goes to that node's wildcard list, the end of the name to its
+// exact list (the closure that walks the name).
+//@ func (*ruleSelector).setRules$1 serves C19 partial ghost
+//@   assert at "r.wild = append(r.wild, rule)" [wildcard-selector-filed-as-wildcard C19] tag == "*" && len(name) == 0
+//@   assert at "r.rules = append(r.rules, rule)" [exact-selector-filed-where-the-name-ends C19] len(tag) == 0
+// A service-config rule is compiled by the same call, for the same method and
+// handler name, as the implicit rule and the annotation (C19: "behaves exactly
+// as the same rule written as a proto annotation"), and the handler is recorded
+// only after every rule was accepted (C16).
+//@ func (*state).appendHandler serves C19 C16 partial ghost count
+//@   requires s != nil && h != nil
+//@   count rulesAdded `s.path.addRule(`
+//@   assert atcall `s.path.addRule(` [every-rule-kind-is-compiled-for-the-same-method C19] arg2 == desc && arg3 == h.method
+//@   assert atcall `opts.httprules.getRules(` [service-config-rules-are-looked-up-by-full-name C19] rulesAdded == 1
